@@ -611,6 +611,9 @@ void f_unique_mapping (void) {
         }
     }
 
+  /* the working table is released by the error handler that is on the stack */
+  if ((int) numkeys > CONFIG_INT (__MAX_MAPPING_SIZE__))
+    error ("unique_mapping: result exceeds maximum mapping size.\n");
   m = allocate_mapping (nmask = numkeys << 1);
   mtable = m->table;
   numkeys = 0;
